@@ -64,6 +64,10 @@ STATIC = {
     'xsd11': dict(xsd_version='1.1'),
     'nonstrict': dict(strict=False),
     'compat': dict(compatibility_mode=True),
+    # the context node is not the caller's tree but comes from fn:parse-xml of a source TEXT (chain of two round
+    # trips, law Idempotent): text nodes written as CDATA sections / with character references
+    'origin-cdata': {},
+    'origin-charref': {},
 }
 XML_CFGS = set(STATIC)
 JSON_CFGS = {'default', 'base-abs', 'xsd11'}
@@ -82,7 +86,7 @@ TIERS = {
                      xml=[('N3', dict(N=3, Kinds={"ea", "eb", "t", "c", "p", "xa", "xc"}, RootCfg="R1", StaticCfgs=XML_CFGS,
                                       PrologMode='all')),
                           ('N4', dict(N=4, Kinds={"ea", "eb", "t", "c", "p", "xa", "xc"}, RootCfg="R1",
-                                      StaticCfgs={'default', 'base-abs', 'ns-default'}, PrologMode='none'))]),
+                                      StaticCfgs={'default', 'base-abs', 'ns-default', 'origin-cdata'}, PrologMode='none'))]),
 }
 
 
@@ -90,13 +94,25 @@ def S(ids) -> str:
     return ''.join(CH[i] for i in ids)
 
 
+# symbolic numbers of spec/JsonModel.tla (e = Sym): index -> decimal numeral.  17 significant digits, integers
+# beyond 2^53, the largest finite / smallest positive double, a long decimal, a big exponent
+SYM_E = 1000
+SYM = {1: '0.30000000000000004', 2: '1.0000000000000002', 3: '9007199254740993', 4: '1.7976931348623157e308',
+       5: '5e-324', 6: '18446744073709551616', 7: '0.1000000000000000055511151231257827', 8: '1.5e+300',
+       9: '123456789012345678', 10: '-2.2250738585072014e-308'}
+if len({float(x) for x in SYM.values()}) != len(SYM):
+    raise tla.MachineryError('symbolic numbers must denote distinct doubles')
+
+
 def numd(m: int, e: int) -> Decimal:
-    return Decimal(m).scaleb(e)
+    return Decimal(SYM[m]) if e == SYM_E else Decimal(m).scaleb(e)
 
 
 def numspell(m: int, e: int, sp: str) -> str:
     """lexical spellings of the JSON number m*10^e (dumb rendering; checked against Decimal)"""
     d = numd(m, e)
+    if e == SYM_E:
+        return SYM[m]
     plain = format(d, 'f')
     if sp in ('canon', 'plain'):
         out = plain
@@ -333,6 +349,16 @@ def _walk(c, f: dict):
     elif t == 'o':
         if sum(1 for k, _ in c[1] if '\\' in k) >= 2:
             f['keys_bs_pair'] = True
+        keys = [k for k, _ in c[1]]
+        for k1 in keys:              # one key is what another one would be if it were JSON-unescaped once more
+            m = re.fullmatch(r'(.*?)\\(u[0-9A-Fa-f]{4}|["\\/bfnrt])(.*)', k1, re.S)
+            if m:
+                try:
+                    once = json.loads('"' + k1.replace('\n', '\\n').replace('\x7f', '\\u007f') + '"')
+                except ValueError:
+                    continue
+                if once != k1 and once in keys:
+                    f['keys_unescape_pair'] = m.group(2)[0] if m.group(2)[0] != '\\' else 'bs'
         for k, y in c[1]:
             _strflags(k, 'key', f)
             _walk(y, f)
@@ -369,7 +395,7 @@ def _strflags(s: str, where: str, f: dict):
 
 
 FLAGS = ['str_bs', 'key_bs', 'bs', 'bs_invalid_looking', 'bs_u_hex', 'bs_bs_u', 'str_slash', 'key_slash', 'slash', 'str_quote', 'key_quote', 'quote', 'str_ctl', 'key_ctl',
-         'nonxml', 'astral', 'num_exp', 'num_exp_ends0', 'keyed_null', 'keyed_nonstr', 'keyed_nonstr_special', 'keys_bs_pair']
+         'nonxml', 'astral', 'num_exp', 'num_exp_ends0', 'keyed_null', 'keyed_nonstr', 'keyed_nonstr_special', 'keys_bs_pair', 'keys_unescape_pair']
 
 
 def flags_of(canon) -> dict:
@@ -451,10 +477,14 @@ def call(expr: str, variables=None, root=None, cache: bool = False, cfg: str = '
         from elementpath.xpath31 import XPath31Parser
         _P31 = XPath31Parser
         signal.signal(signal.SIGALRM, _alarm)
+        signal.signal(signal.SIGPROF, _alarm)
     kw = {'item': 1} if root is None else {}
     pk = dict(STATIC[cfg])
     ns = pk.pop('namespaces', None)
-    signal.alarm(60)
+    # hang detector: 60 s of CPU time of this process (the machine may be heavily loaded: wall-clock time says
+    # nothing), 30 min wall clock as a backstop for a blocked call
+    signal.setitimer(signal.ITIMER_PROF, 60)
+    signal.alarm(1800)
     try:
         if cache:        # constant expression text, only the variable values change: parse once
             sel = _SELECTORS.get((expr, cfg))
@@ -471,6 +501,7 @@ def call(expr: str, variables=None, root=None, cache: bool = False, cfg: str = '
     except Exception as e:  # noqa
         return ('escaped', type(e).__name__)
     finally:
+        signal.setitimer(signal.ITIMER_PROF, 0)
         signal.alarm(0)
 
 
@@ -805,10 +836,11 @@ def _any_escaped(xe) -> bool:
 NONNFC = 'e\u0301\u212b\u2126a\u0301\u0323'
 # 'big8k' / 'big64k': every text and attribute value is longer than the 8 KB / 64 KB buffers of the serializers
 BIG = 'abcdefghi '
-TEXTS = {'plain': 't%d', 'markup': '<&>"\'%d', 'nonnfc': NONNFC + '%d', 'big8k': BIG * 900 + '%d', 'big64k': BIG * 7000 + '%d'}
-ATTVALS = {'plain': 'v%d', 'markup': '<&>"\'\n\t%d', 'nonnfc': NONNFC + '%d', 'big8k': BIG * 900 + '%d',
+SPECIAL = '1 > 0 & ]]> <x> "q" \'%d'
+TEXTS = {'plain': 't%d', 'special': SPECIAL, 'markup': '<&>"\'%d', 'nonnfc': NONNFC + '%d', 'big8k': BIG * 900 + '%d', 'big64k': BIG * 7000 + '%d'}
+ATTVALS = {'plain': 'v%d', 'special': SPECIAL, 'markup': '<&>"\'\n\t%d', 'nonnfc': NONNFC + '%d', 'big8k': BIG * 900 + '%d',
            'big64k': BIG * 7000 + '%d'}
-CONTENT_VARIANTS = ('markup', 'nonnfc', 'big8k', 'big64k')
+CONTENT_VARIANTS = ('markup', 'nonnfc', 'big8k', 'big64k', 'special')
 
 
 def expected_tree(parent2, kind2, first: int, variant: str):
@@ -895,6 +927,24 @@ def make_doc(parent, kind, lib: str, variant: str) -> Doc:
     return d
 
 
+def _charref(text: str) -> str:
+    return ''.join('&#%d;' % ord(ch) if ch in '<>&"\'' else ch for ch in text)
+
+
+def source_text(t, style: str) -> str:
+    """nested tree -> XML source TEXT; text nodes as CDATA sections (style 'cdata') or with character references"""
+    if t[0] == 't':
+        if style == 'cdata':
+            return '<![CDATA[' + t[1].replace(']]>', ']]]]><![CDATA[>') + ']]>'
+        return _charref(t[1])
+    if t[0] == 'c':
+        return f'<!--{t[1]}-->'
+    if t[0] == 'p':
+        return f'<?{t[1]} {t[2]}?>'
+    atts = ''.join(f' {k}="{_charref(v)}"' for k, v in t[2])
+    return f'<{t[1]}{atts}>' + ''.join(source_text(c, style) for c in t[3]) + f'</{t[1]}>'
+
+
 def xml_case(case: dict):
     """one (tree, context node, lib, rootkind, variant) -> list of (law, outcome, observed)"""
     parent, kind, ctx = case['parent'], case['kind'], case['ctx']
@@ -908,15 +958,22 @@ def xml_case(case: dict):
         d.root.addprevious(leaf)
         exp_prolog.append(['c', f'c0{j}'] if k == 'c' else ['p', 'p', f'p0{j}'])
     root = d.tree if case['root'] == 'doc' else d.root
-    if ctx == 0:
-        node, cmp_ = '.', '.'
-        res_path = ''
+    rank = sum(1 for i in range(1, ctx + 1) if kind[i - 1] in ('ea', 'eb'))
+    xvars = None
+    if cfg.startswith('origin-'):
+        # the node comes from fn:parse-xml of a source text; the tree library is chosen by a dummy root
+        whole = expected_tree(parent, kind, 1, case['variant'])
+        xvars = {'src': source_text(whole, cfg[7:])}
+        root = type(d.root)('x') if case['lib'] == 'etree' else d.root.makeelement('x')
+        node = 'parse-xml($src)' if ctx == 0 else f'(parse-xml($src)//*)[{rank}]'
+        res_path = '' if ctx == 0 else '/*'
+    elif ctx == 0:
+        node, res_path = '.', ''
     else:
-        rank = sum(1 for i in range(1, ctx + 1) if kind[i - 1] in ('ea', 'eb'))
         node = f'(//*)[{rank}]' if case['root'] == 'doc' else f'(descendant-or-self::*)[{rank}]'
         res_path = '/*'
     out = []
-    r1 = call(f'for $n in {node} return deep-equal($n, parse-xml(serialize($n)){res_path})', None, root, cache=True, cfg=cfg)
+    r1 = call(f'for $n in {node} return deep-equal($n, parse-xml(serialize($n)){res_path})', xvars, root, cache=True, cfg=cfg)
     if r1[0] != 'ok':
         out.append(('deep-equal(parse-xml(serialize))', f'error:{r1[1]}' if r1[0] == 'err' else f'{r1[0]}:{r1[-1]}', repr(r1)))
     else:
@@ -925,7 +982,7 @@ def xml_case(case: dict):
             v = v[0]
         if v is not True:
             out.append(('deep-equal(parse-xml(serialize))', 'false', repr(v)))
-    r2 = call(f'parse-xml(serialize({node}))', None, root, cache=True, cfg=cfg)
+    r2 = call(f'parse-xml(serialize({node}))', xvars, root, cache=True, cfg=cfg)
     exp = expected_tree(case['parent2'], case['kind2'], max(ctx, 1), case['variant'])
     if r2[0] != 'ok':
         out.append(('parse-xml(serialize)', f'error:{r2[1]}' if r2[0] == 'err' else f'{r2[0]}:{r2[-1]}', repr(r2)))
@@ -1111,10 +1168,11 @@ def run(chk: core.Check) -> None:
                         continue
                     combos = [('lxml', 'plain', 'doc')]
                 else:
-                    variants = (('plain', 'ns', 'markup', 'nonnfc', 'big8k', 'big64k') if cfg == 'default'
-                                else ('plain', 'ns') if cfg.startswith('ns-') else ('plain',))
+                    variants = (('plain', 'ns', 'markup', 'nonnfc', 'big8k', 'big64k', 'special') if cfg == 'default'
+                                else ('plain', 'ns') if cfg.startswith('ns-')
+                                else ('special',) if cfg.startswith('origin-') else ('plain',))
                     combos = [(lib, v, rk) for lib in ('etree', 'lxml') for v in variants
-                              for rk in (('doc',) if s['ctx'] == 0 else ('doc', 'elem'))]
+                              for rk in (('doc',) if s['ctx'] == 0 or cfg.startswith('origin-') else ('doc', 'elem'))]
                 for lib, variant, rootk in combos:
                     xml_cases.append(dict(parent=list(s['parent']), kind=list(s['kind']), ctx=s['ctx'],
                                           parent2=list(s['parent2']), kind2=list(s['kind2']), cfg=cfg, prolog=prolog,
